@@ -36,6 +36,7 @@ type Oblig struct {
 }
 
 type Engine struct {
+	condAssume bool // assume() is conditional on the current path condition (set while a native model runs)
 	w         *World
 	unit      *ssa.Function
 	decls     map[string]string
@@ -125,6 +126,7 @@ type retSite struct {
 	pc   string
 	vals []Val
 	heap *Heap
+	pos  token.Pos
 }
 
 type loopInfo struct {
@@ -1033,7 +1035,7 @@ func (f *frame) step(b *ssa.BasicBlock, ins ssa.Instruction, pc string, h *Heap,
 		for _, r := range in.Results {
 			vs = append(vs, f.get(r))
 		}
-		f.rets = append(f.rets, retSite{pc, vs, h.clone()})
+		f.rets = append(f.rets, retSite{pc, vs, h.clone(), in.Pos()})
 	case *ssa.Panic:
 		f.safetyOb("nopanic:explicit", pc, "false", in.Pos(), in)
 		return false
@@ -1077,7 +1079,7 @@ func addT(a, b string) string {
 // newRef allocates a reference distinct from every pre-existing and every earlier allocated one.
 func (e *Engine) newRef(prefix string) string {
 	r := e.fresh("alloc."+prefix, "Int")
-	e.assume(fmt.Sprintf("(and (> %s %s) (> %s 0) (> %s pre))", r, e.water(), r, r))
+	e.assumeGlobal(fmt.Sprintf("(and (> %s %s) (> %s 0) (> %s pre))", r, e.water(), r, r)) // allocation order: consistent on every path
 	e.lastAlloc = r
 	return r
 }
@@ -1235,7 +1237,7 @@ func (f *frame) binop(in *ssa.BinOp, pc string) Val {
 	if isStr(in.Type()) { // concatenation
 		r := e.fresh(nm, "Str")
 		xs, ys := e.scalar(x), e.scalar(y)
-		e.assume(fmt.Sprintf("(= (slen %s) (+ (slen %s) (slen %s)))", r, xs, ys))
+		e.assumePC(fmt.Sprintf("(= (slen %s) (+ (slen %s) (slen %s)))", r, xs, ys))
 		e.useStrQ = true
 		e.assumeGlobal(fmt.Sprintf("(forall ((i Int)) (! (= (sat %s i) (ite (< i (slen %s)) (sat %s i) (sat %s (- i (slen %s))))) :pattern ((sat %s i))))", r, xs, xs, ys, xs, r))
 		return Sc{r}
@@ -1313,7 +1315,7 @@ func (f *frame) convert(in *ssa.Convert, pc string, h *Heap) Val {
 	if isStr(to) {
 		if s, ok := x.(SliceV); ok { // string(bytes): copies
 			r := e.fresh(nm, "Str")
-			e.assume(fmt.Sprintf("(= (slen %s) %s)", r, s.L))
+			e.assumePC(fmt.Sprintf("(= (slen %s) %s)", r, s.L))
 			if sortOf(under(from).(*types.Slice).Elem()) == "Int" {
 				arr := e.comp(h, "E."+tname(under(from).(*types.Slice).Elem()), "Int", true)
 				e.useStrQ = true
@@ -1407,7 +1409,7 @@ func (f *frame) slice(in *ssa.Slice, pc string, h *Heap) Val {
 			hi := opt(in.High, ln)
 			f.safetyOb("nopanic:slice", pc, fmt.Sprintf("(and (<= 0 %s) (<= %s %s) (<= %s %s))", lo, lo, hi, hi, ln), in.Pos(), in)
 			r := e.fresh(nm, "Str")
-			e.assume(fmt.Sprintf("(= (slen %s) (- %s %s))", r, hi, lo))
+			e.assumePC(fmt.Sprintf("(= (slen %s) (- %s %s))", r, hi, lo))
 			e.useStrQ = true
 			e.assumeGlobal(fmt.Sprintf("(forall ((i Int)) (! (=> (and (<= 0 i) (< i (- %s %s))) (= (sat %s i) (sat %s (+ %s i)))) :pattern ((sat %s i))))", hi, lo, r, xv.T, lo, r))
 			return Sc{r}
